@@ -5,6 +5,6 @@ From Coq Require Import Extraction ExtrOcamlBasic ExtrOcamlZBigInt.
 Require Import V.base.Fld V.model.Ecdsa V.model.Schnorr V.model.Bls.
 Extraction Blacklist List String Nat.
 Extraction "model.ml" ecdsa_sign ecdsa_verify recover normalise flip compute_recovery_id new_signature
-  gen_sign gen_verify bip_sign bip_verify mina_sign mina_verify bip_verify_wire mina_verify_wire xo full
+  gen_sign gen_verify bip_sign bip_verify mina_sign mina_verify bip_verify_wire mina_verify_wire bip_batch_verify gen_batch_verify xo full
   bls_sign bls_verify aggregate_verify aggregate_signatures aggregate_sign_value pop_verify core_verify
   form_eqb fadd fscale fbasis fgen fsum.
